@@ -224,6 +224,82 @@ def oversize_case(draw):
             draw(st.sampled_from([1, 1, 2, 5])), draw(st.booleans()), draw(st.sampled_from(STORAGE_SETS)) + [draw(st.sampled_from(gen.OPT_LEVELS))])
 
 
+# ------------------------------------------------------------------ capacity boundaries at counter-width limits
+
+def boundary_body(shard, val):
+    """Strings whose size sits at a counter-width boundary (255/256/257, 65535/65536) are filled past their capacity."""
+    size, term, storage, u8, handler = val
+    cap = size - 1 if term else size
+    decl = "out %sstr[%d] s0;\nout int m = 0;\n" % ("" if term else "unterminated ", size)
+    if handler:
+        src = decl + "parser {\n    try {\n        s0 += /a+/;\n    }\n    catch (outofspace) {\n        m = 1;\n        wait \"z\";\n    }\n}\n"
+    else:
+        src = decl + "parser {\n    s0 += /a+/;\n    \"z\";\n}\n"
+    argv = ["-O1", "-findirect-start-ptr"] + storage + (["-fstrings-as-u8"] if u8 else [])
+    replay = {"source": src, "argv": argv}
+    out = front.compile_src(src, argv)
+    if not out.accepted:
+        raise Failure("c03:boundary-not-accepted", "%r\n%s" % (out, src), replay)
+    comp = out.compiled
+    try:
+        binary = crun.Binary(comp, sanitize=True, tag="bd")
+    except crun.BuildError as e:
+        raise Failure("c03:c-build-error", str(e)[-800:], replay)
+    try:
+        data = b"a" * (cap + 3) + b"z"
+        # chunks: up to just below the capacity, then byte by byte across it
+        cuts = [c for c in (cap - 2, cap - 1, cap, cap + 1, cap + 2) if 0 < c < len(data)]
+        from checks.c02 import chunks_of
+        chunks = chunks_of(data, cuts)
+        sc = trace.script_for(chunks, call_free=binary.info.dynmem, move=True)
+        rc, outp, err = binary.run_raw(sc)
+        shard.event("evaluations")
+        shard.event("boundary_runs")
+        if rc != 0:
+            raise Failure("c03:sanitizer:" + (sanitizer_kind(err) if err.strip() else "signal%s" % rc), "size %d: %s" % (size, err[-1200:]), replay)
+        run = crun.parse_log(outp)[0]
+        calls = trace.c_calls(run)
+        probs = invariants(binary.info, calls) + term_problems(binary.info, run)
+        # independent expectation: after the chunk that ends at offset k (k <= cap) the counter is k and all bytes are 'a'
+        off = 0
+        feeds = [c for c in calls if c.kind == "feed"]
+        for ch, c in zip(chunks, feeds):
+            off += len(ch)
+            cnt, dat = c.vars["s0"]
+            want = min(off, cap)
+            if c.code == 1:
+                break
+            if cnt != want or (dat is not None and dat != b"a" * want):
+                probs.append("after %d input bytes: counter %d / %d bytes stored, expected %d" % (off, cnt, len(dat or b""), want))
+                break
+            if handler and off > cap and c.vars["m"] != 1:
+                probs.append("after %d input bytes the out-of-space handler has not run (capacity %d)" % (off, cap))
+                break
+        if not handler:
+            last = feeds[min(len(feeds), len(chunks)) - 1]
+            if not any(c.code == 1 for c in feeds):
+                probs.append("writing byte %d into a string of capacity %d did not fail" % (cap + 1, cap))
+        if probs:
+            raise Failure("c03:boundary:" + ("counter" if "counter" in probs[0] else "overflow-not-raised"),
+                          "size %d terminated=%s argv=%r: %s" % (size, term, argv, "; ".join(probs[:3])), replay)
+        shard.nontriv(src + repr(argv))
+    finally:
+        binary.close()
+
+
+@st.composite
+def boundary_case(draw):
+    return (draw(st.sampled_from([255, 256, 257, 255, 256, 257, 65535, 65536])), draw(st.booleans()), draw(st.sampled_from(STORAGE_SETS)),
+            draw(st.booleans()), draw(st.booleans()))
+
+
+def boundary_worker(job):
+    seed, n, known = job
+    shard = Shard()
+    common.hyp_run(shard, lambda v: boundary_body(shard, v), boundary_case(), n, seed, known_keys=known)
+    return shard
+
+
 # ------------------------------------------------------------------ generated programs
 
 @st.composite
@@ -286,6 +362,7 @@ def main(ctx):
     reg = sorted(glob.glob(os.path.join(common.VERIF_DIR, "regress", "C03", "*.json")))
     ctx.pmap(regress_worker, [(p, known) for p in reg])
     ctx.pmap(oversize_worker, [(ctx.seed * 100003 + 50 + i, 12 if quick else 100, known) for i in range(4)])
+    ctx.pmap(boundary_worker, [(ctx.seed * 100003 + 70 + i, 4 if quick else 30, known) for i in range(8)])
     n = 25 if quick else 400
     stop_at = time.time() + (80 if quick else 1600)
     ctx.pmap(worker, [(ctx.seed * 100003 + i, n, known, stop_at) for i in range(common.NPROC)])
@@ -296,7 +373,7 @@ def main(ctx):
     ctx.assumptions = ["intra-struct overruns are invisible to ASan; they are caught by the heap storage modes (same program), the guard words "
                        "and the per-call comparison with the model", "inputs with C-undefined arithmetic are skipped",
                        "post-DONE calls are not made"]
-    ctx.required_classes = ["programs", "class:capacity_reached", "oversize:default", "oversize:assign"]
+    ctx.required_classes = ["programs", "class:capacity_reached", "oversize:default", "oversize:assign", "boundary_runs"]
 
 
 def replay(ctx, data):
